@@ -41,9 +41,11 @@ def extract(g, X):
 
     def codecs():
         b = X.fn_body(types, "raw_image_data")
-        m = re.search(r"match\s+image_filters\s*\{(.*?)_\s*=>\s*bail!", b, flags=re.S)
+        # the match over the filters after the split point (whatever the local is called): its arms are
+        # one-element slice patterns, its wildcard arm bails
+        m = re.search(r"match\s+\w+\s*\{\s*\[\s*\]\s*=>(.*?)_\s*=>\s*bail!", b, flags=re.S)
         if not m:
-            raise ValueError("match image_filters not found")
+            raise ValueError("match over the remaining filters not found")
         out = []
         for am in re.finditer(r"\[\s*StreamFilter::(\w+)(?:\s*\([^)]*\))?\s*\]", m.group(1)):
             out.append(CODES[am.group(1)])
